@@ -74,6 +74,7 @@ def gen_plan(rng, profile: dict, seed: int) -> dict:
             "pre_transport": [rng.choice(["none", "none", "jit", "tree"]) for _ in range(n_mi)],
             "as_single": n_mi == 1 and rng.random() < 0.5,
             "is_torus": rng.random() < 0.5,
+            "mutate_and_repeat": rng.random() < 0.3,
         }
     nb = rng.randint(1, 4)
     L = nb * B + rng.randint(0, B - 1)
@@ -113,7 +114,7 @@ def index_tensor(blk: np.ndarray, c: int, lead: int, tcode: int = 0) -> Optional
     return (v // 64).astype(np.int64)
 
 
-def check_call(mis, specs, L, B, key_is_none, ndev, out, viol, site, bump) -> Optional[list]:
+def check_call(mis, specs, L, B, key_is_none, ndev, out, viol, site, bump, identity=None) -> Optional[list]:
     """Returns the list of flat index arrays per batch, or None after reporting a violation."""
     nbatches = L // B
     if len(out) != len(mis):
@@ -155,7 +156,7 @@ def check_call(mis, specs, L, B, key_is_none, ndev, out, viol, site, bump) -> Op
     if len(allidx) and (allidx.min() < 0 or allidx.max() >= L):
         viol("index_range", {"indices": allidx.tolist(), "L": L}, site)
         return None
-    if key_is_none and not np.array_equal(allidx, np.arange(nbatches * B)):
+    if key_is_none and not np.array_equal(allidx, (np.arange(L) if identity is None else np.asarray(identity))[: nbatches * B]):
         viol("identity_order", {"indices": allidx.tolist()}, site)
         return None
     bump("calls_checked")
@@ -226,6 +227,19 @@ def execute(plan: dict, ctx: dict) -> dict:
                     viol("device_axis_reorders", {"n": ndev, "with_devices": [f.tolist() for f in flat], "one_device": [f.tolist() for f in flat1]}, site)
             if flat is not None:
                 world.log.add("indices", [f.tolist() for f in flat])
+            if flat is not None and plan.get("mutate_and_repeat"):
+                # the data set is modified in place (rows rolled by one: row r now carries sample r-1) and batched again
+                # with the same arguments: the batches must show the new content in the same row order
+                for m in mis:
+                    for t in list(m.keys()):
+                        m[t] = jnp.roll(m[t], 1, axis=0)
+                out2 = ml.get_batches(arg, B, key, devices(ndev))
+                rolled = (np.arange(L) - 1) % L
+                flat2 = check_call(mis, plan["specs"], L, B, key is None, ndev, out2, viol, site + "/after_inplace_change", bump, identity=rolled)
+                evals += 1
+                bump("repeat_after_inplace_change")
+                if flat2 is not None and any(not np.array_equal(rolled[a], b) for a, b in zip(flat, flat2)):
+                    viol("stale_batches_after_inplace_change", {"first_call_rows": [f.tolist() for f in flat], "second_call_samples": [f.tolist() for f in flat2]}, site + "/after_inplace_change")
         except Exception as e:
             viol("raises", f"{type(e).__name__}: {str(e)[:300]}", site)
         kinds += [f"mi{len(mis)}", "nokey" if key is None else "key"] + plan["pre_transport"]
